@@ -20,6 +20,10 @@ pub(crate) struct Index<K> {
     pub state: Arc<RwLock<IndexState<K>>>,
     pub wal: Mutex<WalManager>,
     pub pending_intents: Mutex<HashMap<K, BlobHash>>,
+    /// Hashes of all in-flight commits (multiset). `pending_intents` keeps only the latest
+    /// intent per key, so it cannot tell whether a hash is still needed by an earlier commit
+    /// on the same key. Always locked after `pending_intents`.
+    pub live_intent_hashes: Mutex<HashMap<BlobHash, usize>>,
 }
 
 /// A read-only view of the index state.
@@ -207,9 +211,11 @@ where
     K: Clone + Eq + Ord + std::hash::Hash,
 {
     fn drop(&mut self) {
+        let mut intents = self.index.pending_intents.lock();
+        self.index.release_live_hash(&self.hash);
+
         if !self.committed {
             // Revert: Remove our intent from pending_intents
-            let mut intents = self.index.pending_intents.lock();
 
             if let Some(current_hash) = intents.get(&self.key)
                 && *current_hash == self.hash
@@ -256,6 +262,7 @@ where
             state,
             wal: Mutex::new(wal_manager),
             pending_intents: Mutex::new(HashMap::default()),
+            live_intent_hashes: Mutex::new(HashMap::default()),
         };
 
         // Only checkpoint after replay if we actually replayed something
@@ -287,6 +294,7 @@ where
 
         // Insert the new intent
         intents.insert(key.clone(), meta.blob_hash);
+        *self.live_intent_hashes.lock().entry(meta.blob_hash).or_default() += 1;
 
         Ok(IntentGuard {
             index: self,
@@ -316,11 +324,14 @@ where
             (hashes, rolled)
         };
 
-        intents.remove(&key);
+        // Only drop the by-key entry if it is ours; a concurrent commit on the same key may
+        // have replaced it.
+        if intents.get(&key) == Some(&hash) {
+            intents.remove(&key);
+        }
 
         // Filter out any unreferenced hashes that are still referenced by other intents
-        unreferenced_from_op
-            .retain(|hash| !intents.values().any(|intent_hash| intent_hash == hash));
+        unreferenced_from_op.retain(|hash| !self.has_live_intent(hash));
 
         // Delete blobs BEFORE any checkpoint
         if !unreferenced_from_op.is_empty() {
@@ -355,8 +366,7 @@ where
         };
 
         // Remove any unreferenced hashes that are still referenced by intents
-        unreferenced_from_op
-            .retain(|hash| !intents.values().any(|intent_hash| intent_hash == hash));
+        unreferenced_from_op.retain(|hash| !self.has_live_intent(hash));
 
         // Delete blobs BEFORE any checkpoint
         if !unreferenced_from_op.is_empty() {
@@ -439,6 +449,21 @@ where
 }
 
 impl<K> Index<K> {
+    /// Whether an in-flight commit still needs `hash`. Call with `pending_intents` held.
+    pub fn has_live_intent(&self, hash: &BlobHash) -> bool {
+        self.live_intent_hashes.lock().contains_key(hash)
+    }
+
+    fn release_live_hash(&self, hash: &BlobHash) {
+        let mut live = self.live_intent_hashes.lock();
+        if let Some(count) = live.get_mut(hash) {
+            *count -= 1;
+            if *count == 0 {
+                live.remove(hash);
+            }
+        }
+    }
+
     pub fn read_state(&self) -> IndexReadGuard<'_, K> {
         IndexReadGuard { inner: self.state.read() }
     }
